@@ -4,7 +4,7 @@ import common
 
 def run(tier, replay=None):
     res = common.Result('C15', tier, 'exploration')
-    total = 500000 if tier == 'quick' else 8000000
+    total = 500000 if tier == 'quick' else 40000000
     exe = common.hbuild('h_model', ['h_model.cpp'], 'asan')
     sh = common.Sharded(exe, lambda a, b: ['c15', common.seed(), a, b], total, tag='c15', timeout=1500).run()
     common.absorb(res, sh)
